@@ -208,10 +208,13 @@ def h_setfh_effect(ctx, l1, l2):
         hsn = ctx.int('hsn', 0, 63); maio = ctx.int('maio', 0, 63)
         fr = [(ctx.int('rx%d' % i, 0, R), ctx.int('tx%d' % i, 0, R)) for i in range(l2)]
         args = [hsn, maio] + [v for p in fr for v in p]
+        fn = ctx.int('fn', 0, HYPER - 1)
+        if l1:
+            with ctx.no_raise('resolve-before:no-exception'):
+                t.get_rx_freq(fn); t.get_tx_freq(fn)               # the old configuration was in use in this very frame
         with ctx.no_raise('handle_rx:no-exception'):
             rsp = trxc_roundtrip(ctx, t, trxc_cmd(ctx, 'SETFH', *args))
         check_rsp(ctx, 'SETFH', rsp, 'SETFH', 0, args)
-        fn = ctx.int('fn', 0, HYPER - 1)
         with ctx.no_raise('resolve:no-exception'):
             rxf = t.get_rx_freq(fn); txf = t.get_tx_freq(fn)
         mai = mai_ref(fn, hsn, maio, l2)
